@@ -133,6 +133,7 @@ func extractHandshake(p *pkgs, f *facts) {
 	}
 	// (6) the deferred clean-up that kills the runner: `v := recover()`, the kill's condition mentions v, and `panic(v)` follows
 	killOnPanic := false
+	killCtxFresh := false
 	if start != nil {
 		for _, st := range start.Body.List {
 			d, ok := st.(*ast.DeferStmt)
@@ -167,11 +168,18 @@ func extractHandshake(p *pkgs, f *facts) {
 				return true
 			})
 			killOnPanic = killGuarded && repanics
+			// the Kill in this clean-up gets context.Background() (a context that cannot have expired already)
+			ast.Inspect(fl.Body, func(n ast.Node) bool {
+				if ce, ok := n.(*ast.CallExpr); ok && strings.HasSuffix(exprString(ce.Fun), ".Kill") && len(ce.Args) == 1 {
+					killCtxFresh = exprString(ce.Args[0]) == "context.Background()"
+				}
+				return true
+			})
 		}
 	}
-	f.lean = append(f.lean, fmt.Sprintf("def handshake : Handshake.Params := ⟨%s, %s, %d, %d, %d, %s, %s⟩",
-		leanBool(addrErrChecked), leanBool(certNilGuard), minFields, certMinLen, core, leanBool(addressLast), leanBool(killOnPanic)))
-	f.set("handshake", map[string]interface{}{"addrErrChecked": addrErrChecked, "certNilGuard": certNilGuard, "addressAssignedLast": addressLast, "deferKillsOnPanic": killOnPanic,
+	f.lean = append(f.lean, fmt.Sprintf("def handshake : Handshake.Params := ⟨%s, %s, %d, %d, %d, %s, %s, %s⟩",
+		leanBool(addrErrChecked), leanBool(certNilGuard), minFields, certMinLen, core, leanBool(addressLast), leanBool(killOnPanic), leanBool(killCtxFresh)))
+	f.set("handshake", map[string]interface{}{"addrErrChecked": addrErrChecked, "certNilGuard": certNilGuard, "addressAssignedLast": addressLast, "deferKillsOnPanic": killOnPanic, "cleanupKillCtxFresh": killCtxFresh,
 		"minFields": minFields, "certMinLen": certMinLen, "coreVersion": core})
 }
 
